@@ -320,12 +320,12 @@ class MatlabDefCompiler:
 
             # include STRING_DATA core defs for backwards compatibility with quicklogger and message manager output
             f.write("% Manual Definitions - obsolete core defs\n")
-            f.write(f"RTMA.MT.MM_ERROR = 83;\n")
-            f.write(f"RTMA.MDF.MM_ERROR = 'VARIABLE_LENGTH_ARRAY(int8)';\n")
-            f.write(f"RTMA.MT.MM_INFO = 84;\n")
-            f.write(f"RTMA.MDF.MM_INFO = 'VARIABLE_LENGTH_ARRAY(int8)';\n")
-            f.write(f"RTMA.MT.DEBUG_TEXT = 91;\n")
-            f.write(f"RTMA.MDF.DEBUG_TEXT = 'VARIABLE_LENGTH_ARRAY(int8)';\n")
+            for name, msg_type in (("MM_ERROR", 83), ("MM_INFO", 84), ("DEBUG_TEXT", 91)):
+                # a message of that name in the definition files is the one to use
+                if name in self.parser.message_ids:
+                    continue
+                f.write(f"RTMA.MT.{name} = {msg_type};\n")
+                f.write(f"RTMA.MDF.{name} = 'VARIABLE_LENGTH_ARRAY(int8)';\n")
 
             # RTMA.hash
             f.write("% Message Definition Hashes\n")
